@@ -360,6 +360,7 @@ def explore(S, K, want=('C04', 'C05', 'C06'), cats=None, between_items=False):
         return body
 
     seen_styles = set()
+    tasks = []
     for site, sfields in styles:
         key = repr(sorted(sfields.items(), key=lambda kv: kv[0]))
         if key in seen_styles:
@@ -367,13 +368,12 @@ def explore(S, K, want=('C04', 'C05', 'C06'), cats=None, between_items=False):
         seen_styles.add(key)
         for k in range(0, K + 1):
             for combo in sequences(k):
-                ob, ex = S.explore('list@%s[%s]' % (site, ','.join(combo)),
-                                   'ListStylist with the ListStyle built in %s over children %r, every fold style and stylist option' % (site, combo),
-                                   make_body(combo, site, sfields), bounds=dict(children=k, style_site=site))
-                for lab, mdl, info in ex.violations:
-                    found.append((lab, info))
-                if ob.status.startswith('inconclusive'):
-                    return found
+                tasks.append(('list@%s[%s]' % (site, ','.join(combo)),
+                              'ListStylist with the ListStyle built in %s over children %r, every fold style and stylist option' % (site, combo),
+                              make_body(combo, site, sfields), dict(children=k, style_site=site)))
+    for ob, viol in S.explore_batch(tasks):
+        for lab, mdl, info in viol:
+            found.append((lab, info))
     return found
 
 
